@@ -486,6 +486,8 @@ pub fn szx_chunks_strategy() -> impl Strategy<Value = Case> {
                 v
             }),
             1 => proptest::collection::vec(any::<u8>(), 100..=300),
+            // bodies longer than any legitimate chunk, really present in the file
+            1 => (0usize..4, any::<u8>()).prop_map(|(k, b)| vec![b; [65_536usize, 65_539, 65_540, 70_000][k]]),
         ],
         // declared size: exact, or adversarial
         prop_oneof![6 => Just(None), 1 => prop_oneof![Just(0u32), Just(1), Just(0xFFFF_FFFF), Just(0x7FFF_FFFF), Just(0x0100_0000), any::<u32>()].prop_map(Some)],
@@ -876,7 +878,7 @@ pub fn replay(run: &mut Run, phase: &str, case: &serde_json::Value) -> Result<()
 }
 
 pub const LEVEL: &str = "fault_enumeration";
-pub const RULE: &str = "targets: load_snapshot(SNA|SZX), load_screen(SCR), load_tape(TAP) followed by four ROM fast-load requests (destinations 0xC000, 0xFFF8 and 0xFFFF, so that blocks end at or wrap past the top of memory), rewind and 32 frames of real-time playing, load_rom, GzipAsset::new, Vtx::load followed by playing; both machines, the receiving emulator standing at a frame start or stopped by a breakpoint somewhere inside a frame; 3 frames of emulation after every outcome. Inputs: (1) committed corpus (repository assets and earlier failures); (2) fault enumeration: for valid files of every format a fault (error, 1-byte / 7-byte short read, premature end-of-data; one-shot or sticky) at EVERY read/seek call index the successful load performs; (2b) length boundaries: valid files of every format cut or padded (0x00 / 0xA5) to every length within a few bytes of each structural boundary (SNA: header, every bank end, 49179, 49183, 131103, 147487; SZX/TAP: every chunk/block header and body end; SCR 6144/6912; ROM 16384/32768; gzip/VTX headers and trailers), offered to both machines; (2c) gzip files of at most 160 KiB that unpack to 1..120 MiB and SZX files whose compressed RAM page inflates to 20 KiB..100 MiB; (3) valid files from the harness' writers with 0..4 field/structure mutations (byte set, 32-bit set incl. 0/1/0xFFFF/0xFFFFFFFF/16383/16385, truncation, append, remove, splice; half of the positions in the first 512 bytes); (4) explicit SZX chunk lists with adversarial ids (non-UTF-8), sizes (0, 1, 2^32-1, ...) and body lengths (0..40, short RAMP pages); (5) VTX headers with adversarial sizes, player frequency 0, missing string terminators; (6) uniform bytes up to 160 KiB with and without magic. Monitor: catch_unwind with overflow checks and debug assertions enabled in all crates (profile `checked`), a counting allocator flagging any single request above max(16 MiB, 64 x input), deterministic loop detection (asset asked to read again after 100000 zero-length results). non-trivial = input passes the format's first size/magic validation as judged by the harness; distinct = hash of (bytes, target, machine, fault)";
+pub const RULE: &str = "targets: load_snapshot(SNA|SZX), load_screen(SCR), load_tape(TAP) followed by four ROM fast-load requests (destinations 0xC000, 0xFFF8 and 0xFFFF, so that blocks end at or wrap past the top of memory), rewind and 32 frames of real-time playing, load_rom, GzipAsset::new, Vtx::load followed by playing; both machines, the receiving emulator standing at a frame start or stopped by a breakpoint somewhere inside a frame; 3 frames of emulation after every outcome. Inputs: (1) committed corpus (repository assets and earlier failures); (2) fault enumeration: for valid files of every format a fault (error, 1-byte / 7-byte short read, premature end-of-data; one-shot or sticky) at EVERY read/seek call index the successful load performs; (2b) length boundaries: valid files of every format cut or padded (0x00 / 0xA5) to every length within a few bytes of each structural boundary (SNA: header, every bank end, 49179, 49183, 131103, 147487; SZX/TAP: every chunk/block header and body end; SCR 6144/6912; ROM 16384/32768; gzip/VTX headers and trailers), offered to both machines; (2c) gzip files of at most 160 KiB that unpack to 1..120 MiB and SZX files whose compressed RAM page inflates to 20 KiB..100 MiB; (3) valid files from the harness' writers with 0..4 field/structure mutations (byte set, 32-bit set incl. 0/1/0xFFFF/0xFFFFFFFF/16383/16385, truncation, append, remove, splice; half of the positions in the first 512 bytes); (4) explicit SZX chunk lists with adversarial ids (non-UTF-8), sizes (0, 1, 2^32-1, ...) and body lengths (0..40, short RAMP pages, bodies of 65536..70000 bytes really present); (5) VTX headers with adversarial sizes, player frequency 0, missing string terminators; (6) uniform bytes up to 160 KiB with and without magic. Monitor: catch_unwind with overflow checks and debug assertions enabled in all crates (profile `checked`), a counting allocator flagging any single request above max(16 MiB, 64 x input), deterministic loop detection (asset asked to read again after 100000 zero-length results). non-trivial = input passes the format's first size/magic validation as judged by the harness; distinct = hash of (bytes, target, machine, fault)";
 pub const ASSUMPTIONS: &[&str] = &[
     "Ok and Err are both clean outcomes; an Err from emulate_frames after a failed tape load is clean too",
     "non-termination is detected by a deterministic work counter in the asset, not by wall clock",
